@@ -236,13 +236,16 @@ def main():
                 if rc == 1:
                     st["killed"] += 1
                     print("killed   %s:%d [%s] by %s" % (m["file"], m["line"], m["kind"], " ".join(killers)[:160]))
-                elif rc in (0, 3):
+                elif rc == 0:
                     st["survived"] += 1
-                    print("SURVIVOR %s %s:%d (%s) [%s]%s\n    - %s\n    + %s" % ("ALL", m["file"], m["line"], m["fn"], m["kind"], " (some checks exit 2)" if rc == 3 else "", m["old"].strip(), m["new"].strip()))
+                    print("SURVIVOR %s %s:%d (%s) [%s]\n    - %s\n    + %s" % ("ALL", m["file"], m["line"], m["fn"], m["kind"], m["old"].strip(), m["new"].strip()))
+                elif rc == 3:
+                    st["undecided"] = st.get("undecided", 0) + 1
+                    print("undecided %s:%d (%s) [%s] some check exits 2 (analysis broken), none reports: %s" % (m["file"], m["line"], m["fn"], m["kind"], m["new"].strip()[:100]))
                 else:
                     st["broken"] += 1
         for f, st in sorted(stats.items()):
-            print("%s: killed %d, survived %d, not parsed / analysis broken %d" % (f, st["killed"], st["survived"], st["broken"]))
+            print("%s: killed %d, survived %d, undecided (exit 2 in some check, no report) %d, not parsed / all broken %d" % (f, st["killed"], st["survived"], st.get("undecided", 0), st["broken"]))
         return 0
     with ThreadPoolExecutor(a.jobs) as ex:
         for m, rc, rules, last in ex.map(lambda m: run(m, a.tier), todo):
